@@ -149,9 +149,9 @@ def explore(chk):
         chk.count("n")
         cs = capio.build_set(abstract)
         try:
-            dfxp = pycaption.DFXPWriter().write(cs)
-            sami = pycaption.SAMIWriter().write(cs)
-            vtt = pycaption.WebVTTWriter().write(cs)
+            dfxp = core.POOL.get(pycaption.DFXPWriter).write(cs)
+            sami = core.POOL.get(pycaption.SAMIWriter).write(cs)
+            vtt = core.POOL.get(pycaption.WebVTTWriter).write(cs)
         except Exception as e:
             chk.property_failure(dict(case, error=repr(e)[:300]), "a writer raised on a caption with balanced flat spans"); continue
         # the same caption with a layout on the caption and on every node, written with inline positioning
@@ -186,7 +186,7 @@ def explore(chk):
         # ---- round trips and cross conversions
         for src_name, doc, Reader in (("dfxp", dfxp, pycaption.DFXPReader), ("sami", sami, pycaption.SAMIReader)):
             try:
-                rs = Reader().read(doc)
+                rs = core.POOL.get(Reader).read(doc)
                 rc = rs.get_captions(rs.get_languages()[0])[0]
                 rn = capio.obs_nodes(rc.nodes)
                 got, bal = node_flags(rn)
